@@ -123,6 +123,22 @@ func (w *world) build(n uint32, seed int64) error {
 		w.gen.AvoidOldOracle = false
 		w.gen.ScriptOldOracle(w.P + 2)
 	}
+	if w.finding == "" {
+		// the first block after the sync point looks at the transactions of the sync point's block by position (what a
+		// node that has just jumped there holds of its newest block)
+		if w.gen.Script == nil {
+			w.gen.Script = map[uint32]func() *transaction.Transaction{}
+		}
+		for _, hh := range []uint32{w.P + 1, w.P + 2} {
+			at := hh
+			w.gen.Script[at] = func() *transaction.Transaction {
+				if len(w.gen.KVs) == 0 {
+					return nil
+				}
+				return w.gen.Tx([]neotest.Signer{w.gen.Accts[int(at)%len(w.gen.Accts)]}, w.gen.KVs[0], "ledgerProbe3", int64(w.P), int64(at-w.P-1))
+			}
+		}
+	}
 	for h := uint32(1); h <= n; h++ {
 		b, err := w.gen.NextBlock(5)
 		if err != nil {
